@@ -210,6 +210,9 @@ func (w *concWorld) Gen(seed uint64, tier string) *Plan {
 	cfg.Dom = []int{4, 6, 8, 12, 16, 24}[r.Intn(6)]
 	cfg.Strat = r.PickS("random", "random", "random", "every-yield", "coarse")
 	cfg.SwitchP = []int{5, 50, 500}[r.Intn(3)]
+	if floatOK("C18", cfg.Kind) && r.P(1, 12) {
+		useFloat(r, &cfg)
+	}
 	p := &Plan{World: "conc", Cfg: cfg, SchedSeed: r.U64()}
 	s := makeSubject(cfg, false)
 	roles := s.(Roler).Roles()
